@@ -181,7 +181,7 @@ XLATE = {
  'C01': "Translated code (Tie/C01): age.Decrypt is translated from /repo on every run (format.Parse, the identity loop, the nil-key test, the MAC comparison, the nonce, then the payload reader; Identity.Unwrap, headerMAC, streamKey, stream.NewReader abstract and assumed to be the model's) and proved to return what the model's decryptInit returns (decrypt_tie); decrypt_consults_prefix: whatever the identities after the first one that does not answer 'incorrect identity' would do — faulting included — is never asked for. So the 'consulted in order, none after the first that opens the file' clause is about the source text. The native identity below that abstraction is translated too: (*X25519Identity).unwrap/.Unwrap (x25519.go) with the primitives as parameters answer, for every stanza list, what the model's X25519 identity answers (x25519_unwrap_tie, x25519_Unwrap_tie); likewise the SSH identities of agessh/agessh.go (sshEd_Unwrap_tie, sshRsa_Unwrap_tie; agessh's own multiUnwrap translated and proved to be age's).",
  'C03': "Translated code (Tie/C03): age.Decrypt translated from /repo on every run and proved equal to the model's decryptInit (decrypt_tie): a reader exists ONLY when the MAC the file carries equals the MAC of the received header under the unwrapped file key, and the comparison precedes the nonce read and the reader (mac_gate, wrong_mac_rejected are about the source text); age.headerMAC translated from primitives.go: the MAC is HMAC-SHA256, keyed with HKDF(file key, no salt, 'header'), over the received header serialised without its MAC (headerMAC_tie; HKDF, HMAC, MarshalWithoutMAC are parameters).",
  'C04': "Translated code (Tie/C04): age.Decrypt translated from /repo and proved equal to the model's decryptInit (decrypt_tie): when every identity answers 'incorrect identity' the result is NoIdentityMatchError carrying EXACTLY one cause per identity tried, and no reader; age.multiUnwrap, translated from /repo on every run, proved equal to the model's multiUnwrap for every per-stanza function and stanza list (first answer other than 'incorrect identity' decides; nothing matched ⇒ exactly ErrIncorrectIdentity).",
- 'C10': "Translated code (Tie/C10): (*ScryptIdentity).unwrap and .Unwrap are translated from /repo on every run (format.DecodeString, scrypt.Key, aeadDecrypt abstract) and proved to answer what the model answers for every stanza, passphrase and maximum; scrypt_unwrap_no_kdf: handed a scrypt.Key that FAULTS when called, the translated code still returns normally whenever the model derives no key (non-canonical or too large work factor, wrong arity, bad salt, other type) — 'rejects without deriving a key' as a theorem about the source text; scrypt_Unwrap_alone: a passphrase stanza that is not alone is refused before DecodeString, scrypt.Key or aeadDecrypt is called; the constructors and setters (NewScryptRecipient, NewScryptIdentity, SetWorkFactor, SetMaxWorkFactor) translated and proved: passphrase stored byte for byte, only the empty one refused, defaults 18 and 22, setters accept exactly 1..30; cmd/age's own passphrase identity (*LazyScryptIdentity).Unwrap translated down through NewScryptIdentity and ScryptIdentity.Unwrap and proved to be the model's lazyUnwrap (lazy_unwrap_tie): the passphrase is asked for exactly when the header is one passphrase stanza — a callback that FAULTS when called is not reached otherwise (lazy_unwrap_no_prompt) — and a wrong passphrase is fatal.",
+ 'C10': "Translated code (Tie/C10): (*ScryptIdentity).unwrap and .Unwrap are translated from /repo on every run (format.DecodeString, scrypt.Key, aeadDecrypt abstract) and proved to answer what the model answers for every stanza, passphrase and maximum; scrypt_unwrap_no_kdf: handed a scrypt.Key that FAULTS when called, the translated code still returns normally whenever the model derives no key (non-canonical or too large work factor, wrong arity, bad salt, other type) — 'rejects without deriving a key' as a theorem about the source text; scrypt_Unwrap_alone: a passphrase stanza that is not alone is refused before DecodeString, scrypt.Key or aeadDecrypt is called; the constructors and setters (NewScryptRecipient, NewScryptIdentity, SetWorkFactor, SetMaxWorkFactor) translated and proved: passphrase stored byte for byte, only the empty one refused, defaults 18 and 22, setters accept exactly 1..30; cmd/age's own passphrase identity (*LazyScryptIdentity).Unwrap translated down through NewScryptIdentity and ScryptIdentity.Unwrap and proved to be the model's lazyUnwrap (lazy_unwrap_tie): the passphrase is asked for exactly when the header is one passphrase stanza — a callback that FAULTS when called is not reached otherwise (lazy_unwrap_no_prompt) — and a wrong passphrase is fatal; (*EncryptedIdentity).Unwrap of cmd/age translated (identities: a field whose being nil differs from being empty): once the identities are cached decrypt is not called again (it may fault when called) — the passphrase is asked for at most once per identity value — a failed decrypt is returned as it is, the cached identities are tried in order, and the no-match warning is given exactly when all answer 'incorrect identity' (encid_cached_tie, encid_cached_warning, encid_cached_no_warning, encid_fresh_ok, encid_fresh_fail).",
  'C14': "Translated code (Tie/C14): stream_read_returns / stream_write_returns / stream_close_returns (the translated stream code returns from every related state: none of the three explicit panics of stream.go, no index/slice fault, no aliasing hazard, no exhausted fuel); header_parser_returns (the translated format.Parse returns on EVERY input: no index/slice fault, no explicit panic, fuel len(input)+1 suffices) and scrypt_unwrap_no_kdf / scrypt_unwrap_kdf_bounded (no key derivation beyond the configured maximum), armor_read_returns (the translated de-armoring reader returns from every related state, on every text: no fault, no exhausted fuel) are theorems about code translated from /repo on every run.",
  'C09': "Translated code (Tie/C09): ALL of internal/bech32 (polymod, hrpExpand, verifyChecksum, createChecksum, convertBits, Encode, Decode) and plugin Encode/Parse{Identity,Recipient} and the native key strings of x25519.go (ParseX25519Recipient, ParseX25519Identity, both String methods and the two constructors; only the scalar multiplication that derives the public key is a parameter) are translated from /repo statement by statement on every run and PROVED, for every byte string incl. non-ASCII and invalid UTF-8, to return exactly what the model returns (decode_tie, encode_tie, parseIdentity_tie, ...): the theorems above are therefore about the functions as they stand in the source.",
  'C11': "Translated code (Tie/C11): age.Encrypt translated from /repo on every run (recipient loop with wrapWithLabels, sort.Strings, the first recipient's list as reference, slicesEqual, failing wrap with its index; then headerMAC, Header.Marshal(dst), nonce, dst.Write) with the destination an explicit state; encrypt_tie: it refuses exactly the lists the model refuses and leaves the destination in the SAME state (untouched on a label or wrap refusal), so encrypt_ok_iff_labels_equal / refusal_writes_nothing are about the source text; age.slicesEqual, regenerated from /repo on every run, proved to be list equality.",
